@@ -24,6 +24,8 @@ type Clause struct {
 	callPos token.Pos
 	callExtra []string
 	assumeAt bool // `at call NAME#K assume E`: a stated assumption (reported), not an obligation
+	retPos   token.Pos // `at return#K assert E`: position of the K-th return statement (0-based, source order)
+	before   bool // `assert-before` / `assume-before`: evaluated in the state just before the call (default: at the end of its basic block)
 	pos   token.Position
 	// filled by the type-checking step
 	expr ast.Expr
@@ -47,6 +49,7 @@ type Contract struct {
 	split    bool // one postcondition obligation per return site
 	noexec   string // reason why the contract is not executed against the real function
 	bounded string // `bounded REASON`: the contract is only executed against the real function (bounded stand-in, never counted as proved)
+	onlyAsserts string // `assertions-only REASON`: only the stated assertions and postconditions are obligations; the safety classes and callee preconditions of this function are assumed (reported)
 	frameAssumed string // the `modifies` clause is assumed, not proved (reason); everything else is verified
 	prepare  []string
 	frameWithout []string
@@ -170,6 +173,11 @@ func parseContracts(pkg *packages.Package) ([]*Contract, error) {
 						cur.bounded = "outside the verifier's theories"
 					}
 					cur.mode = "bounded"
+				case "assertions-only":
+					cur.onlyAsserts = rest
+					if cur.onlyAsserts == "" {
+						cur.onlyAsserts = "thin contract"
+					}
 				case "frame-assumed":
 					cur.frameAssumed = rest
 					if cur.frameAssumed == "" {
@@ -198,11 +206,16 @@ func parseContracts(pkg *packages.Package) ([]*Contract, error) {
 					if len(fs) == 3 && fs[0] == "call" {
 						// at call NAME#K assert EXPR
 						gs := strings.SplitN(fs[2], " ", 2)
-						if len(gs) != 2 || (gs[0] != "assert" && gs[0] != "assume") {
-							return nil, fmt.Errorf("%s: at call NAME#K assert|assume EXPR", pos)
+						before := false
+						if len(gs) == 2 && strings.HasSuffix(gs[0], "-before") {
+							before = true
+							gs[0] = strings.TrimSuffix(gs[0], "-before")
 						}
-						if gs[0] == "assume" {
-							cl := &Clause{kind: "at", text: gs[1], at: "call:" + fs[1], pos: pos, assumeAt: true}
+						if len(gs) != 2 || (gs[0] != "assert" && gs[0] != "assume") {
+							return nil, fmt.Errorf("%s: at call NAME#K assert|assume[-before] EXPR", pos)
+						}
+						if gs[0] == "assume" || before {
+							cl := &Clause{kind: "at", text: gs[1], at: "call:" + fs[1], pos: pos, assumeAt: gs[0] == "assume", before: before}
 							cl.setLabel(cl.text)
 							cur.clauses = append(cur.clauses, cl)
 							last = cl
